@@ -43,6 +43,22 @@ def run(case):
         res = []
         fired_rules = []
         okall = True
+        expected = list(props)
+        if kind == "neutral" and set(props) == claimed:
+            # all checks against a behaviour-preserving patch: one process, one load of the program (oapsa -property ALL)
+            env = dict(os.environ, VERIF_REPO=d, VERIF_ROOT=os.path.join(d, ".verif-out"))
+            os.makedirs(env["VERIF_ROOT"], exist_ok=True)
+            shutil.copy(ROOT + "/known_findings.json", env["VERIF_ROOT"])
+            r = subprocess.run([os.environ.get("OAPSA_BIN", ROOT + "/bin/oapsa"), "-property", "ALL", "-tier", os.environ.get("TIER", "quick")], env=env, capture_output=True, text=True, cwd=ROOT)
+            import re as _re
+            viol = [l for l in r.stdout.splitlines() if "] violated:" in l or "] undecided:" in l]
+            fired = r.returncode != 0 or "VIOLATION property=" in r.stdout
+            fired_rules = sorted({m.group(1) + "." + m.group(2) for l in viol for m in [_re.search(r"\[(C\d+) ([^\]]+)\]", l)] if m})
+            if fired and not fired_rules:
+                fired_rules = ["ALL.meta"]
+            okall = not fired
+            res.append(f"ALL: {'fired' if fired else 'silent'} rc={r.returncode} " + " / ".join(v[:160] for v in viol[:3]))
+            props = []
         for prop in props:
             if prop not in claimed:
                 res.append(f"{prop}: not claimed")
@@ -63,7 +79,7 @@ def run(case):
                 good = not fired and r.returncode == 0
             okall &= good
             res.append(f"{prop}: {'fired' if fired else 'silent'} rc={r.returncode} " + " / ".join(v[:160] for v in viol[:3]))
-        RESULTS[name] = {"kind": kind, "expected": props, "as_expected": bool(okall), "fired": fired_rules}
+        RESULTS[name] = {"kind": kind, "expected": expected, "as_expected": bool(okall), "fired": fired_rules}
         if os.environ.get("SELFTEST_OUT"):  # incremental record, one JSON line per case (merged by scripts/mergeselftest.py)
             with open(os.environ["SELFTEST_OUT"], "a") as fh:
                 fh.write(json.dumps({name: RESULTS[name]}, sort_keys=True) + "\n")
